@@ -31,6 +31,9 @@ func init() {
 					obs = append(obs, o)
 				}
 			}
+			// composition: Marshal/Builder must not hand out memory that is recycled
+			obs = append(obs, c.Pools("net/packet")...)
+			obs = append(obs, c.VarLen()...)
 			return obs
 		},
 	}
@@ -41,6 +44,7 @@ func init() {
 			obs := c.wireObs(func(p, t string) bool { return p == "level" && names[t] })
 			in := recvPred("level", "PaletteContainer", "singleValuePalette", "linearPalette", "hashPalette", "globalPalette", "BitStorage", "statesCfg", "biomesCfg")
 			obs = append(obs, c.TLGObs(in, in, false)...)
+			obs = append(obs, c.PaletteResizeCopiesAll()...)
 			return obs
 		},
 	}
@@ -53,6 +57,8 @@ func init() {
 			obs = append(obs, c.GuardedCalls("level.NewBitStorage", 2, c.NetworkRoots(), in, in)...)
 			obs = append(obs, c.TLGObs(in, in, false)...)
 			obs = append(obs, c.SetBlockCounter()...)
+			obs = append(obs, c.HeightMapBits()...)
+			obs = append(obs, c.PaletteResizeCopiesAll()...)
 			return obs
 		},
 	}
